@@ -91,6 +91,11 @@ def build_harness(release=True):
     if release:
         sh('cargo build --offline --release', cwd=h, timeout=1200)
 
+def build_stack_probe():
+    """the probe of native stack needs in a plain (unoptimised) debug build: profile `plaindebug` of the harness"""
+    h = os.path.join(ROOT, 'harness')
+    sh('cargo build --offline --profile plaindebug --bin stack_probe', cwd=h, timeout=1800)
+
 # ----------------------------------------------------------------------------- runners
 def _run_shard(cmd, lines, timeout):
     p = subprocess.run(cmd, input='\n'.join(lines) + '\n', stdout=subprocess.PIPE, stderr=subprocess.PIPE, text=True,
